@@ -11,6 +11,13 @@ import time
 
 def _worker(inq, outq, repo):
     os.environ.setdefault("PYTHONHASHSEED", "0")
+    # the solver binding prints "Exception ignored in __dealloc__" noise on stderr
+    try:
+        fd = os.open(os.path.join(os.path.dirname(os.path.dirname(os.path.abspath(__file__))), "out", "workers.stderr"),
+                     os.O_WRONLY | os.O_CREAT | os.O_APPEND)
+        os.dup2(fd, 2)
+    except OSError:
+        pass
     if repo:
         sys.path.insert(0, os.path.join(repo, "src"))
     from . import runner     # noqa  (imports vsc from the working tree)
